@@ -3,7 +3,7 @@
    The model is of OffsetCommit WITH fixes/C13-commit-under-lock.patch (check and store
    write in one critical section, so every operation is atomic and schedules are
    operation sequences). *)
-From KS Require Import lib.Base model.Coordinator model.CoordinatorFaults proofs.CoordinatorBase proofs.CoordinatorProofs proofs.CoordinatorFaults model.CoordinatorCluster proofs.CoordinatorCluster.
+From KS Require Import lib.Base model.Coordinator model.CoordinatorFaults proofs.CoordinatorBase proofs.CoordinatorProofs proofs.CoordinatorFaults model.CoordinatorCluster proofs.CoordinatorCluster proofs.CoordinatorFinal.
 Open Scope Z_scope.
 
 (* (1) in ANY state: a sync, heartbeat or offset commit whose (member, generation) is not
@@ -93,6 +93,46 @@ Theorem C13_fenced_any_broker : forall E c b o mid gen now,
   cl_off c' = cl_off c /\ (r = CNotCoordinator -> c' = c).
 Proof. exact c13_fenced_any_broker. Qed.
 Print Assumptions C13_fenced_any_broker.
+
+(* (6) across a failover, under store faults: when the last whole-group write succeeded
+       ([synced]), a sync / heartbeat / commit that is not from (a member, the generation) of
+       the group as the OLD coordinator had it is fenced by its successor too, whatever fault
+       hits that request *)
+Theorem C13_fenced_across_failover_under_store_faults : forall E h o f mid gen now n0 g,
+  synced E (runf E h) -> cur (runf E h) n0 = Some g ->
+  ~ (In mid (keys g) /\ gen = g_gen g) ->
+  (o = Sync mid gen now \/ o = Heartbeat mid gen now \/ exists t p off, o = Commit mid gen t p off now) ->
+  reply_err_opt (snd (stepf E (failover (runf E h)) o f)) <> NONE /\
+  s_off (fst (stepf E (failover (runf E h)) o f)) = s_off (failover (runf E h)).
+Proof. intros E h o f mid gen now n0 g. apply c13f_fenced_across_failover. apply runf_inv2. Qed.
+Print Assumptions C13_fenced_across_failover_under_store_faults.
+
+(* (6') the hypothesis is necessary: two members Stable in generation 2, member 1 expires but
+       the sweep's write fails (memory: generation 3 without member 1; store: generation 2
+       with it); after the failover the successor ACCEPTS member 1's commit for generation 2
+       and overwrites the offset -- it can only know what the store learned *)
+Theorem C13_fenced_across_failover_needs_synced :
+  let s := runf wE w13 in
+  ~ synced wE s /\
+  option_map (fun g => (zmem 1 (keys g), g_gen g)) (cur s 5001) = Some (false, 3) /\
+  snd (stepf wE (failover s) (Commit 1 2 0 0 9 5001) ok) = Some (RErr NONE) /\
+  off_get (0, 0) (s_off (fst (stepf wE (failover s) (Commit 1 2 0 0 9 5001) ok))) = 9 /\
+  off_get (0, 0) (s_off s) = 0.
+Proof. exact c13_needs_synced. Qed.
+Print Assumptions C13_fenced_across_failover_needs_synced.
+
+(* (7) along EVERY cluster history (requests to any broker, lease moves, sweeps): whenever an
+       event changes a committed offset, it is an OffsetCommit of a member that is current,
+       in the current generation, in the lease holder's view at that time -- a view that is
+       a state of the single-coordinator model --, answered NONE *)
+Theorem C13_cluster_offsets_only_by_current_commit : forall E evs ev,
+  let c := crun E evs in
+  cl_off (fst (cstep E c ev)) <> cl_off c ->
+  exists b mid gen t p off now h, ev = CReq b (Commit mid gen t p off now) /\
+    holder_view c = run E h /\ current (run E h) now mid gen /\
+    snd (cstep E c ev) = CReply (RErr NONE).
+Proof. exact c13_cluster_offsets_only_by_current_commit. Qed.
+Print Assumptions C13_cluster_offsets_only_by_current_commit.
 
 (* non-vacuity: an expired member's commit / heartbeat / sync with its old generation is
    rejected and the offset stays; the surviving member's commit lands *)
